@@ -103,12 +103,13 @@ def run(ctx):
                 bad(f"Fluid.{name} differs from the stand-alone correlation evaluated with the object's attributes (long pressure array)", dict(T=T, api=api, gg=gg, Rsi=rsi, n=nlong, Tpc=tpc, Ppc=ppc),
                     dict(max_rel_diff=float(np.abs(got[sub] / want - 1).max()) if got.shape == plong.shape else "shape"))
     # ---------------- table builder
-    ntab = 3 if ctx.quick else 18
+    ntab = 4 if ctx.quick else 20
     for k in range(ntab):
         g = dom.gas_params(rng)
         while abs(g["n2"] - g["co2"]) < 0.01 or abs(g["n2"] - g["h2s"]) < 0.01:    # a composition whose components cannot be confused unnoticed
             g = dom.gas_params(rng)
-        pmax = float(rng.choice([95.0, 100.0, 305.0, 1000.0])) if ctx.quick else float(rng.choice([95.0, 100.0, 1000.0, 3333.0, 14000.0]))
+        # every maximum in turn (multiples of the 10-psi step and not): the grid's end must not depend on the luck of a draw
+        pmax = [95.0, 100.0, 305.0, 1000.0][k % 4] if ctx.quick else [95.0, 100.0, 1000.0, 3333.0, 14000.0][k % 5]
         vals = {"N2": g["n2"], "H2S": g["h2s"], "CO2": g["co2"], "Gas Specific Gravity": g["sg"],
                 "Reservoir Temperature (deg F)": g["T"]}
         with warnings.catch_warnings():
